@@ -522,9 +522,9 @@ class Engine:
                 st.pc.append(pre)
         # exceptions the callee may raise propagate: the exception edge must be
         # infeasible here, or allowed by the caller's own raises clause
-        for exc_name, cond in c.raises.items():
-            may = self.truthy(self.ev_clause(cond, env, heap=st.heap))
-            self.safety(st, z3.Not(may), exc_name, lineno, f"callee-{c.qualname}")
+        # (conditions are evaluated in the pre-state; the callee's writes -- applied below, BEFORE the exception edges
+        # are created -- are visible on the exceptional exits as well: a callee may modify and then raise)
+        mays = [(exc_name, self.truthy(self.ev_clause(cond, env, heap=st.heap))) for exc_name, cond in c.raises.items()]
         # decreases for recursion
         if (c is self.c or c.key == (self.c.path_hints or {}).get("recursion_via")) and not self.spec_mode and self.emit:
             c_dec = self.c
@@ -534,11 +534,13 @@ class Engine:
             m_caller = self.as_int(self.ev_clause(c_dec.decreases, self.entry_env))
             self.oblige(st, f"decreases@L{lineno}", "decreases", z3.And(m_caller >= 0, m_callee < m_caller), lineno)
         if c.result_is is not None:
+            for exc_name, may in mays:
+                self.safety(st, z3.Not(may), exc_name, lineno, f"callee-{c.qualname}")
             res = self.ev_clause(c.result_is, env, heap=st.heap)
             self.qdepth -= len(ghost_bound)
             return self.coerce(res, parse_type(c.returns)) if c.returns != "Any" else res
         # the callee may write the listed fields of its `self`: havoc them, the ensures speaks about the new values
-        if not self.spec_mode:
+        if not self.spec_mode and c.result_is is None:
             for pname, flds in self.modifies_of(c).items():
                 obj = env.get(pname)
                 if isinstance(obj, VOpt):
@@ -548,6 +550,8 @@ class Engine:
                 for f in flds:
                     ft = parse_type(self.reg.records[obj.cls].fields[f])
                     st.heap.setdefault(f"{obj.cls}.{f}", []).append((obj.t, self.fac.mk(ft, fresh_name(f"{obj.cls}.{f}.after"))))
+        for exc_name, may in mays:
+            self.safety(st, z3.Not(may), exc_name, lineno, f"callee-{c.qualname}")
         rt = parse_type(c.returns)
         if self.comp_ctx:
             # inside a comprehension the result is a function of the index (same symbol on every evaluation)
@@ -2223,6 +2227,10 @@ class Engine:
                 body = select_fragment(node, c.fragment, self)
             outs = self.exec_block(body, st)
         final: List[Outcome] = []
+        block_frag = bool(c.fragment) and c.fragment.get("rule") == "inner_block"
+        if block_frag:
+            outs = [Outcome("return", o.st, VNone(), lineno=o.lineno or getattr(node, "end_lineno", 0))
+                    if o.kind in ("fall", "break", "continue") else o for o in outs]
         open_end = bool(c.fragment) and c.fragment.get("rule") in ("until_stmt", "between_stmts")
         ends_answering = bool(c.fragment) and c.fragment.get("rule") == "guard_prefix"
         for o in outs:
@@ -2310,6 +2318,21 @@ def select_fragment(fnode, frag: Dict[str, Any], eng: Engine) -> List[ast.stmt]:
         eng.dropped.append(f"fragment until_stmt: statements from `{frag['starts_with']}` on are not part of this "
                            "obligation set (a path reaching them must be infeasible under the contract's pre-condition)")
         return out
+    if rule == "inner_block":
+        # the statements of a nested block (e.g. a loop body) from the one starting with `starts_with` to the end of
+        # that block; `break` / `continue` / falling off its end are the normal exits of the fragment
+        for n_ in ast.walk(fnode):
+            for fld in ("body", "orelse", "finalbody"):
+                blk = getattr(n_, fld, None)
+                if not isinstance(blk, list):
+                    continue
+                for i_, st_ in enumerate(blk):
+                    if isinstance(st_, ast.stmt) and ast.unparse(st_).startswith(frag["starts_with"]):
+                        eng.dropped.append(f"fragment inner_block: the statements from `{frag['starts_with']}` (L{st_.lineno}) to the "
+                                           f"end of their block (L{blk[-1].end_lineno}); names defined before are ghost parameters; "
+                                           "break / continue / end of block are the fragment's normal exits")
+                        return blk[i_:]
+        raise Unsupported(f"fragment inner_block: no statement starts with `{frag['starts_with']}`")
     if rule == "guard_prefix":
         # the leading statements up to and including the first `if <guard>: return Nothing`; a path leaving the
         # fragment at its end stands for "the function goes on to answer" (end_returns)
